@@ -124,21 +124,17 @@ fn c16_digits() {
     }
     assert!(n <= 10, "C16: more than ten digits");
     // decimal expansion, stated recursively: the last digit is pin % 10, the digits before it are the
-    // expansion of pin / 10; the expansion of 0 is empty. One case per digit count keeps every index concrete.
-    let mut k = 0;
-    while k <= 10 {
-        if n == k {
-            let mut q = pin;
-            let mut i = 0;
-            while i < k {
-                assert!(digits[k - 1 - i] as u32 == q % 10, "C16: digits are not the decimal expansion of the PIN");
-                q /= 10;
-                i += 1;
-            }
-            assert!(q == 0, "C16: the PIN has more digits than were extracted");
+    // expansion of pin / 10; the expansion of 0 is empty
+    let mut q = pin;
+    let mut i = 0;
+    while i < 10 {
+        if i < n {
+            assert!(digits[n - 1 - i] as u32 == q % 10, "C16: digits are not the decimal expansion of the PIN");
+            q /= 10;
         }
-        k += 1;
+        i += 1;
     }
+    assert!(q == 0, "C16: the PIN has more digits than were extracted");
     assert!(n == 0 || digits[0] != 0, "C16: leading zero digit");
     assert!((n == 0) == (pin == 0), "C16: digit count of zero");
     kani::cover!(n == 10, "ten digits");
